@@ -224,6 +224,12 @@ fn stmt(s: &Stmt, env: &mut Env) -> Result<Option<String>, String> {
             let v = ex(e, env)?;
             Ok(if semi.is_some() { None } else { Some(v) })
         }
+        // `debug_assert*!`: no effect on the behaviour under the contract (it only makes a debug build stricter); skipped.
+        // `assert!(cond)` / `assert_eq!` would change behaviour (a panic): not in the subset, reported.
+        Stmt::Macro(m) => {
+            let name = m.mac.path.segments.last().map(|s| s.ident.to_string()).unwrap_or_default();
+            if name.starts_with("debug_assert") { Ok(None) } else { Err(format!("macro statement `{name}!`")) }
+        }
         _ => Err("statement kind".into()),
     }
 }
